@@ -308,12 +308,15 @@ impl Env {
                 }
             }
         }
+        if let Ret::Fail = &spec.ret {
+            return mk_err(hid);
+        }
         if let Ret::Delegate(prog, ctx) = &spec.ret {
             let c = self.build_ctx(ctx);
             return execute(&prog.text(), c);
         }
         Ok(match &spec.ret {
-            Ret::Delegate(..) => unreachable!(),
+            Ret::Delegate(..) | Ret::Fail => unreachable!(),
             Ret::Marker => {
                 let mut xs = vec![Value::String(format!("h{}", hid))];
                 xs.extend(args);
